@@ -5,15 +5,36 @@ import (
 	"encoding/json"
 	"fmt"
 
+	"github.com/Oneledger/protocol/action"
+
 	"olverif/harness/rng"
 )
 
 // Reencode returns the same signed content in another JSON encoding (the parsed SignedTx is
 // identical, the received bytes are not): 0 = indented, 1 = keys re-ordered (map order),
-// 2 = an unknown top-level field added, 3 = trailing whitespace.
+// 2 = an unknown top-level field added, 3 = trailing whitespace; 4..6 alter the part of the
+// envelope no signature covers, the signature list itself, and are re-serialised canonically:
+// 4 = first signature duplicated, 5 = an empty signature entry appended, 6 = a stranger's valid
+// signature over the same content appended.
 func Reencode(tx []byte, how int) []byte {
 	if how == 3 {
 		return append(append([]byte{}, tx...), ' ', '\n')
+	}
+	if how >= 4 {
+		st, ok := parseSigned(tx)
+		if !ok || len(st.Signatures) == 0 {
+			return nil
+		}
+		switch how {
+		case 4:
+			st.Signatures = append(st.Signatures, st.Signatures[0])
+		case 5:
+			st.Signatures = append(st.Signatures, action.Signature{})
+		default:
+			x := NewAcct(99, "replay-stranger")
+			st.Signatures = append(st.Signatures, action.Signature{Signer: x.Pub, Signed: x.Sign(st.RawTx.RawBytes())})
+		}
+		return serSigned(st)
 	}
 	dec := json.NewDecoder(bytes.NewReader(tx))
 	dec.UseNumber()
@@ -37,7 +58,7 @@ func Reencode(tx []byte, how int) []byte {
 // (byte-identical, or the same signed content re-encoded). The property holds iff the
 // resubmission is rejected by CheckTx and A's results and application hash stay equal to B's.
 func RunReplay(seed uint64, histories, blocks, maxTxs int) (*Result, error) {
-	res := NewResult("replay", seed, "case = one generated block history on twin replicas; A's blocks additionally carry resubmissions (byte-identical, or re-encoded: indentation, key order, unknown field, trailing whitespace) of transactions that succeeded earlier, each first offered to CheckTx; monitor: CheckTx code != 0 and A's application hash / other results equal B's; non-trivial = at least one resubmission of a successful state-changing tx delivered at a later height; distinct = SHA-256 of the lines")
+	res := NewResult("replay", seed, "case = one generated block history on twin replicas; A's blocks additionally carry resubmissions (byte-identical, or re-encoded: indentation, key order, unknown field, trailing whitespace, and altered unsigned envelope parts: duplicated / empty / stranger's extra signature entry) of transactions that succeeded earlier, each first offered to CheckTx; monitor: CheckTx code != 0 and A's application hash / other results equal B's; non-trivial = at least one resubmission of a successful state-changing tx delivered at a later height; distinct = SHA-256 of the lines")
 	root := rng.New(seed*77 + 3)
 	for c := 0; c < histories; c++ {
 		r := root.Fork()
@@ -82,8 +103,12 @@ func RunReplay(seed uint64, histories, blocks, maxTxs int) (*Result, error) {
 				if r.Intn(3) == 0 {
 					extra = o.b
 				} else {
-					how = r.Intn(4)
+					how = r.Intn(7)
 					extra = Reencode(o.b, how)
+					if extra == nil {
+						how = 3
+						extra = Reencode(o.b, how)
+					}
 				}
 			}
 			b := sim.NextBlock(txs, bo)
